@@ -312,7 +312,7 @@ send $m (
 }
 
 func Harness_VM_20_save_then_send() {
-	checkCase(vmCase{script: `vars {
+	checkCase(vmCase{noTracked: true, script: `vars {
   monetary $s
   monetary $m
 }
@@ -446,4 +446,109 @@ send $m (
     remaining to @d
   }
 )`, vars: mvars("m", "monetary", "p", "portion", "q", "portion"), asset: cA, total: totalVar("m")})
+}
+
+func Harness_VM_29_save_then_overdraft() {
+	checkCase(vmCase{noTracked: true, script: `vars {
+  monetary $s
+  monetary $m
+  monetary $od
+}
+save $s from @a
+send $m (
+  source = {
+    @a allowing overdraft up to $od
+    @world
+  }
+  destination = @b
+)`, vars: mvars("s", "monetary", "m", "monetary", "od", "monetary"), asset: cA, total: totalVar("m"), bounds: boundsOf("a", "od")})
+}
+
+func Harness_VM_30_save_all_then_overdraft() {
+	checkCase(vmCase{noTracked: true, script: `vars {
+  monetary $m
+  monetary $od
+}
+save [USD/2 *] from @a
+send $m (
+  source = {
+    @a allowing overdraft up to $od
+    @world
+  }
+  destination = @b
+)`, vars: mvars("m", "monetary", "od", "monetary"), asset: cA, total: totalVar("m"), bounds: boundsOf("a", "od")})
+}
+
+func Harness_VM_31_overdraft_save_overdraft() {
+	checkCase(vmCase{noTracked: true, script: `vars {
+  monetary $m
+  monetary $s
+  monetary $n
+  monetary $od
+}
+send $m (
+  source = @a allowing overdraft up to $od
+  destination = @b
+)
+save $s from @a
+send $n (
+  source = {
+    @a allowing overdraft up to $od
+    @world
+  }
+  destination = @c
+)`, vars: mvars("m", "monetary", "s", "monetary", "n", "monetary", "od", "monetary"), asset: cA, bounds: boundsOf("a", "od"),
+		total: func(_ func(string, string) *big.Int, vars map[string]machine.Value) *big.Int {
+			return new(big.Int).Add(amountOf(vars["m"]), amountOf(vars["n"]))
+		}})
+}
+
+func Harness_VM_32_two_overdraft_sends() {
+	checkCase(vmCase{script: `vars {
+  monetary $m
+  monetary $n
+  monetary $od
+}
+send $m (
+  source = @a allowing overdraft up to $od
+  destination = @b
+)
+send $n (
+  source = @a allowing overdraft up to $od
+  destination = @c
+)`, vars: mvars("m", "monetary", "n", "monetary", "od", "monetary"), asset: cA, bounds: boundsOf("a", "od"),
+		total: func(_ func(string, string) *big.Int, vars map[string]machine.Value) *big.Int {
+			return new(big.Int).Add(amountOf(vars["m"]), amountOf(vars["n"]))
+		}})
+}
+
+func Harness_VM_33_send_all_after_receive() {
+	checkCase(vmCase{script: `vars {
+  monetary $m
+}
+send $m (
+  source = @world
+  destination = @a
+)
+send [USD/2 *] (
+  source = @a
+  destination = @b
+)`, vars: mvars("m", "monetary"), asset: cA,
+		total: func(bal func(string, string) *big.Int, vars map[string]machine.Value) *big.Int {
+			return new(big.Int).Add(amountOf(vars["m"]), pos(new(big.Int).Add(bal("a", cA), amountOf(vars["m"]))))
+		}})
+}
+
+func Harness_VM_34_two_assets() {
+	checkCase(vmCase{script: `vars {
+  monetary $m
+}
+send $m (
+  source = @a
+  destination = @b
+)
+send [EUR/2 7] (
+  source = @a
+  destination = @b
+)`, vars: mvars("m", "monetary")})
 }
